@@ -6,8 +6,8 @@ query object), several documents (two iterators with the same document key share
 For every multiset of k <= 3 specs and every schedule (a word over the k iterators) of combined length
 L = min(bound, total number of next() calls the iterators accept; bound 8, quick: 6): the iterators are created
 up front, advanced in schedule order, and every item (location + value) or StopIteration each next() gives must
-equal the item at the same position of the spec's SOLITARY run (computed once on a fresh environment with a
-freshly compiled query and a private copy of the document).  Every schedule is run in two variants:
+equal the item at the same position of the spec's SOLITARY run (computed in a forked process of its own on a fresh
+environment with a freshly compiled query and a private copy of the document).  Every schedule is run in two variants:
 `abandon` (the iterators are dropped where the schedule ends) and `exhaust` (they are then drained one after
 the other and the remainders compared as well).  After each `abandon` schedule a fresh solitary iterator per
 spec is run to completion on the shared objects (an abandoned iterator must not leave anything behind), and the
@@ -56,24 +56,31 @@ def item(n):
     return json.dumps([list(n.location), n.value])
 
 
-def solitary_table():
-    out = {}
-    for q, text in QUERIES.items():
-        for d, doc in DOCS.items():
-            env = JSONPathEnvironment()
-            out[(q, d)] = [item(n) for n in env.compile(text).finditer(copy.deepcopy(doc))] + [STOP]
-    return out
+def _solitary(qd):
+    q, d = qd
+    env = JSONPathEnvironment()
+    try:
+        return qd, [item(n) for n in env.compile(QUERIES[q]).finditer(copy.deepcopy(DOCS[d]))] + [STOP]
+    except Exception as e:  # noqa: BLE001
+        return qd, ["ERR:" + type(e).__name__]
+
+
+def solitary_table(ctx=None):
+    """Every solitary run in a process of its own that has evaluated nothing else."""
+    ctx = ctx or mp.get_context("fork")
+    with ctx.Pool(min(10, os.cpu_count() or 1), maxtasksperchild=1) as p:
+        return dict(p.imap_unordered(_solitary, [(q, d) for q in QUERIES for d in DOCS], chunksize=1))
 
 
 class World:
     """The shared objects of one worker process."""
 
-    def __init__(self):
+    def __init__(self, sol):
         self.envs = {e: JSONPathEnvironment() for e in ENVS}
         self.compiled = {(e, q): self.envs[e].compile(t) for e in ENVS for q, t in QUERIES.items()}
         self.docs = {d: copy.deepcopy(v) for d, v in DOCS.items()}
         self.snap = {d: json.dumps(v) for d, v in self.docs.items()}
-        self.sol = solitary_table()
+        self.sol = sol
 
     def new_iter(self, spec):
         e, q, d = spec
@@ -161,7 +168,7 @@ def _worker(task):
     specs, bound = task
     w = _W.get("w")
     if w is None:
-        w = _W["w"] = World()
+        w = _W["w"] = World(_W["sol"])
     limits = [len(w.sol[s[1:]]) for s in specs]
     length = min(bound, sum(limits))
     n = nontrivial = 0
@@ -196,11 +203,10 @@ def spec_multisets(kmax, queries):
 # ------------------------------------------------------------------------------------------------
 # threads
 # ------------------------------------------------------------------------------------------------
-def thread_part(n_threads=4, iterations=200):
+def thread_part(sol, n_threads=4, iterations=200):
     env = JSONPathEnvironment()
     docs = {d: copy.deepcopy(v) for d, v in DOCS.items()}
     snap = {d: json.dumps(v) for d, v in docs.items()}
-    sol = solitary_table()
     shared = {q: env.compile(t) for q, t in QUERIES.items()}
     pairs = [(q, d) for q in QUERIES for d in DOCS]
     viol, count = [], [0]
@@ -261,6 +267,7 @@ def run(tier: str, seed: int) -> dict:
     evaluations = nontrivial = 0
     viol, samples = [], []
     ctx = mp.get_context("fork")
+    _W["sol"] = sol = solitary_table(ctx)
     with ctx.Pool(min(16, os.cpu_count() or 1)) as pool:
         for n, nt, v, s in pool.imap_unordered(_worker, tasks, chunksize=8):
             evaluations += n
@@ -269,7 +276,7 @@ def run(tier: str, seed: int) -> dict:
             if s and len(samples) < 400:
                 samples.append(s)
     with ctx.Pool(1) as pool:                       # threads in a process of their own
-        tn, tv = pool.apply(thread_part)
+        tn, tv = pool.apply(thread_part, (sol,))
     evaluations += tn
     viol.extend(tv)
     by_kind, seen = {}, set()
